@@ -121,6 +121,10 @@ func (s *TableAggregator) OrderedRows(sorter sorting.NameValueSorter) []*TableRo
 }
 
 func (s *TableAggregator) ComputeMinMax() (min, max int64) {
+	if len(s.rows) == 0 || len(s.cols) == 0 {
+		return 0, 0
+	}
+
 	min, max = math.MaxInt64, math.MinInt64
 
 	for _, r := range s.rows {
@@ -135,12 +139,6 @@ func (s *TableAggregator) ComputeMinMax() (min, max int64) {
 		}
 	}
 
-	if min == math.MaxInt64 {
-		min = 0
-	}
-	if max == math.MinInt64 {
-		max = 0
-	}
 	return
 }
 
